@@ -189,7 +189,10 @@ def forall_ranges(bounds, body_fn, patterns_fn=None, names=None):
     body = to_z3(body_fn(*vs), "bool")
     pats = patterns_fn(*vs) if patterns_fn else None
     if pats:
-        return z3.ForAll(vs, z3.Implies(guard, body), patterns=pats)
+        try:
+            return z3.ForAll(vs, z3.Implies(guard, body), patterns=pats)
+        except z3.Z3Exception:
+            pass  # not usable as a trigger (lambda / interpreted head): let the solver choose
     return z3.ForAll(vs, z3.Implies(guard, body))
 
 
